@@ -355,6 +355,11 @@ func storageRoundTrip(rep *Report, r *Rng, seed uint64, idx int) {
 		Config:   genTree(r, 0, valKeys),
 		Chart:    &chart.Chart{Metadata: &chart.Metadata{Name: "c", Version: "1.2.3", APIVersion: "v2"}, Values: genTree(r, 0, valKeys), Templates: []*chart.File{{Name: "templates/a.yaml", Data: []byte("a: {{ .Values.a }}")}}},
 	}
+	if idx%12 == 5 {
+		// a big release: 1-3 MiB of (compressible) manifest, far above 1 MiB once decoded, still well under
+		// the size limit of a stored object once gzipped
+		rel.Manifest = strings.Repeat("# a manifest line that compresses well\n", (1+r.Intn(3))*(1<<20)/39)
+	}
 	if r.Chance(50) {
 		rel.Info.FirstDeployed = helmtime.Unix(int64(r.Intn(2000000000)), int64(r.Intn(1000000000)))
 		rel.Info.LastDeployed = helmtime.Unix(int64(r.Intn(2000000000)), 0)
